@@ -1,8 +1,181 @@
 import Genshi.Wire
+import Genshi.Model.Subst
+import Genshi.Model.SubstEmit
+import Genshi.Model.SubstRead
+import Genshi.Model.SubstDomain
+import Genshi.Model.SubstFmt
 namespace Driver.C01
-open Genshi
+open Genshi Genshi.Subst Genshi.Sexp
 
-/-- stub: the model driver for C01 is not built yet -/
-def handle : List Sexp → Option Sexp := fun _ => none
+def scalar? : Sexp → Option Scalar
+  | .atom "N" => some .none
+  | .list [.atom "pstr", .str s] => some (.str s)
+  | .list [.atom "mk", .str s] => some (.markup s)
+  | .list [.atom "num", .str s] => some (.num s)
+  | .list [.atom "obj", .str s, .atom "N"] => some (.obj s none)
+  | .list [.atom "obj", .str s, .str h] => some (.obj s (some h))
+  | _ => none
+
+def val? : Sexp → Option Val
+  | .list [.atom "one", x] => do let x ← scalar? x; pure (.one x)
+  | .list (.atom "many" :: xs) => do let xs ← xs.mapM scalar?; pure (.many xs)
+  | _ => none
+
+def atom? : Sexp → Option Atom
+  | .list [.atom "lit", x] => do let x ← scalar? x; pure (.lit x)
+  | .list [.atom "var", i] => do let i ← i.toNat?; pure (.var i)
+  | _ => none
+
+def vexpr? : Sexp → Option VExpr
+  | .list [.atom "val", v] => do let v ← val? v; pure (.val v)
+  | .list [.atom "var", i] => do let i ← i.toNat?; pure (.var i)
+  | .list (.atom "list" :: xs) => do let xs ← xs.mapM atom?; pure (.listOf xs)
+  | _ => none
+
+def apart? : Sexp → Option APart
+  | .list [.atom "lit", .str s] => some (.lit s)
+  | .list [.atom "e", e] => do let e ← vexpr? e; pure (.expr e)
+  | _ => none
+
+def attrSpec? : Sexp → Option AttrSpec
+  | .list [.atom "fixed", .str s] => some (.static s)
+  | .list (.atom "interp" :: ps) => do let ps ← ps.mapM apart?; pure (.interp ps)
+  | _ => none
+
+def namedAtom? : Sexp → Option (Name × Atom)
+  | .list [.str n, a] => do let a ← atom? a; pure (n, a)
+  | _ => none
+
+def fargs? : Sexp → Option FArgs
+  | .list [.atom "one", a] => do let a ← atom? a; pure (.one a)
+  | .list (.atom "tup" :: xs) => do let xs ← xs.mapM atom?; pure (.tup xs)
+  | .list (.atom "map" :: kvs) => do let kvs ← kvs.mapM namedAtom?; pure (.map kvs)
+  | _ => none
+
+partial def bkid? : Sexp → Option BKid
+  | .list [.atom "arg", e] => do let e ← vexpr? e; pure (.arg e)
+  | .list [.atom "el", .str t, .list attrs, .list kids] => do
+      let attrs ← attrs.mapM namedAtom?
+      let kids ← kids.mapM bkid?
+      pure (.el t attrs kids)
+  | _ => none
+
+def fattr? : Sexp → Option (Name × FAttr)
+  | .list [.str n, .atom "hole"] => some (n, .hole)
+  | .list [.str n, .list [.atom "lit", .str v]] => some (n, .lit v)
+  | _ => none
+
+def fpiece? : Sexp → Option FPiece
+  | .list [.atom "T", .str s] => some (.text s)
+  | .atom "H" => some .hole
+  | .list [.atom "S", .str t, .list attrs] => do let attrs ← attrs.mapM fattr?; pure (.open t attrs)
+  | .list [.atom "E", .str t] => some (.close t)
+  | _ => none
+
+def sexpr? : Sexp → Option SExpr
+  | .list [.atom "v", e] => do let e ← vexpr? e; pure (.v e)
+  | .list [.atom "add", .str m, a] => do let a ← atom? a; pure (.add m a)
+  | .list [.atom "radd", .str m, a] => do let a ← atom? a; pure (.radd m a)
+  | .list (.atom "join" :: .str sep :: xs) => do let xs ← xs.mapM atom?; pure (.join sep xs)
+  | .list [.atom "esc", a, q] => do let a ← atom? a; let q ← q.toBool?; pure (.esc a q)
+  | .list [.atom "fmt", .str f, args] => do let args ← fargs? args; pure (.fmt f args)
+  | .list (.atom "fmtp" :: .list pieces :: args) => do
+      let pieces ← pieces.mapM fpiece?; let args ← args.mapM atom?; pure (.fmtp pieces args)
+  | .list [.atom "build", b] => do let b ← bkid? b; pure (.build b)
+  | .list (.atom "frag" :: ks) => do let ks ← ks.mapM bkid?; pure (.frag ks)
+  | _ => none
+
+partial def node? : Sexp → Option Node
+  | .list [.atom "lit", .str s] => some (.lit s)
+  | .list [.atom "expr", e] => do let e ← sexpr? e; pure (.site e)
+  | .list [.atom "el", .str t, .list attrs, pa, .list kids] => do
+      let attrs ← attrs.mapM fun
+        | .list [.str n, a] => do let a ← attrSpec? a; pure (n, a)
+        | _ => none
+      let pa ← match pa with
+        | .atom "N" => some none
+        | .list items => do let items ← items.mapM namedAtom?; pure (some items)
+        | _ => none
+      let kids ← kids.mapM node?
+      pure (.el t attrs pa kids)
+  | .list [.atom "loop", e, .list kids] => do
+      let e ← vexpr? e; let kids ← kids.mapM node?; pure (.loop e kids)
+  | .list [.atom "bind", a, .list kids] => do
+      let a ← atom? a; let kids ← kids.mapM node?; pure (.bind a kids)
+  | .list [.atom "cond", b, .list kids] => do
+      let b ← b.toBool?; let kids ← kids.mapM node?; pure (.cond b kids)
+  | _ => none
+
+def method? : Sexp → Option Method
+  | .atom "xml" => some .xml
+  | .atom "xhtml" => some .xhtml
+  | .atom "html" => some .html
+  | _ => none
+
+def evOut : Ev → Sexp
+  | .start t a => .list [.atom "S", .str t, .list (a.map fun p => .list [.str p.1, .str p.2])]
+  | .end_ t => .list [.atom "E", .str t]
+  | .text s f => .list [.atom "T", .str s, ofBool f]
+
+def ev? : Sexp → Option Ev
+  | .list [.atom "S", .str t, .list a] => do
+      let a ← a.mapM fun
+        | .list [.str n, .str v] => some (n, v)
+        | _ => none
+      pure (.start t a)
+  | .list [.atom "E", .str t] => some (.end_ t)
+  | .list [.atom "T", .str s, f] => do let f ← f.toBool?; pure (.text s f)
+  | _ => none
+
+def handle : List Sexp → Option Sexp
+  -- the event stream the template produces for the case (Template.generate)
+  | [.atom "events", .list nodes] => do
+      let nodes ← nodes.mapM node?
+      if listOk [] nodes then pure (.list ((renderList [] nodes).map evOut)) else pure (.atom "unmodelled")
+  -- the rendered text
+  | [.atom "run", m, strip, .list nodes] => do
+      let m ← method? m; let strip ← strip.toBool?
+      let nodes ← nodes.mapM node?
+      if !listOk [] nodes then pure (.atom "unmodelled") else
+      let evs := renderList [] nodes
+      if inCacheDefectZone m strip evs then pure (.atom "unmodelled") else
+      pure (.str (serialize m strip evs))
+  -- serialization of a given START/END/TEXT stream
+  | [.atom "ser", m, strip, .list evs] => do
+      let m ← method? m; let strip ← strip.toBool?
+      let evs ← evs.mapM ev?
+      if inCacheDefectZone m strip evs then pure (.atom "unmodelled") else
+      pure (.str (serialize m strip evs))
+  -- the specification side: what re-reading must give, when the case is inside the hypotheses of
+  -- `structure_preserved`
+  | [.atom "expect", m, strip, .list nodes] => do
+      let m ← method? m; let strip ← strip.toBool?
+      let nodes ← nodes.mapM node?
+      if (if strip then nodesOkB m nodes else nodesOkM m nodes) && listOk [] nodes then
+        let evs := expectedList [] nodes
+        pure (.list ((if strip then coalesceStrip m evs else coalesce evs).map evOut))
+      else pure (.atom "outside")
+  -- `Markup(fmt) % operands` from the author's pieces: the format string, the operator's result,
+  -- and what `markup_format_site` says re-reading it gives
+  | [.atom "fmtsite", .list pieces, .list args] => do
+      let pieces ← pieces.mapM fpiece?
+      let args ← args.mapM Sexp.toStr?
+      let f := fmtString pieces
+      let res := match Genshi.Escape.mMod Genshi.Escape.escapePy f (.tup (args.map Genshi.Escape.Opnd.plain)) with
+        | .ok s => Sexp.str s
+        | .error _ => .atom "raises"
+      let evs := match fillEsc pieces args with
+        | some toks => Sexp.list ((coalesce (toks.flatMap tokEvents)).map evOut)
+        | none => .atom "N"
+      pure (.list [.str f, res, evs])
+  -- the specification-side reader on a document
+  | [.atom "read", m, .str doc] => do
+      let m ← method? m
+      match readDoc m doc with
+      | some evs => pure (.list (evs.map evOut))
+      | none => pure (.atom "rejected")
+  | [.atom "text", m, .str v] => do let m ← method? m; pure (.str (emitText m v))
+  | [.atom "attr", .str v] => some (.str (emitAttr v))
+  | _ => none
 
 end Driver.C01
